@@ -14,6 +14,8 @@ with Go's `container/heap` (`Model/GoHeap.lean`) at exactly the call sites of th
   in the parent)
 * parking in `worker.getNextTask`             ↦ `park`         (`idleSynchronizingWorkers.enqueue`, `heapPushOrFix`)
 * `worker.dequeue`                            ↦ `unpark`       (`idleSynchronizingWorkersList.dequeue`, `heapRemoveOrFix`)
+* `sizeClassQueue.getOrCreateInvocation` (one level) ↦ `createInvocation`; `invocation.removeIfEmpty` ↦ `removeInvocation`
+  (invocations that are in no heap)
 
 All of them walk from one invocation (given by its path of keys from the root) up to the root;
 `updatePath leaf up` is that walk: `leaf` is applied to the invocation at the path, `up P c'` to
@@ -142,6 +144,23 @@ def upUnpark (P c' : Inv) : Inv :=
 def unpark (listIndex : Nat) : List Nat → Inv → Inv :=
   updatePath (fun i => i.setParked (swapRemove i.parked listIndex)) upUnpark
 
+/-! ### invocations come and go -/
+
+/-- A new invocation (lines 1625-1636): in no heap, `lastOperationStarted = lastOperationCompletion = now`. -/
+def emptyInv (k now : Nat) : Inv := .mk k [] [] 0 0 now [] [] now []
+
+/-- One level of `sizeClassQueue.getOrCreateInvocation` (lines 1620-1643): the invocation at `path`
+gets a child with key `k` unless it has one. -/
+def createInvocation (k now : Nat) : List Nat → Inv → Inv :=
+  updatePath (fun i => if (i.child k).isSome then i else i.setKids (i.kids ++ [emptyInv k now])) storeKid
+
+/-- `invocation.removeIfEmpty` (lines 1885-1897) for the child `k` of the invocation at `path`: it
+is dropped from `children` when it is not active and no idle worker is associated with it — in
+this model: nothing queued, nothing executing, no parked worker, no children. -/
+def removeInvocation (k : Nat) : List Nat → Inv → Inv :=
+  updatePath (fun i => i.setKids (i.kids.filter fun c =>
+    !(c.key == k && !c.isQueued && c.exec == 0 && !c.hasParked && c.kids.isEmpty))) storeKid
+
 /-! ### all updates -/
 
 /-- The heap-changing functions of the scheduler, each with the path of the invocation it
@@ -153,6 +172,8 @@ inductive Update where
   | decrement (path : List Nat) (now : Nat) (last : Inv → Bool)
   | park (path : List Nat) (worker : Nat)
   | unpark (path : List Nat) (listIndex : Nat)
+  | create (path : List Nat) (key now : Nat)
+  | removeIfEmpty (path : List Nat) (key : Nat)
 
 def Update.apply : Update → Inv → Inv
   | .enqueue path o, t => Fair.enqueue path o t
@@ -161,6 +182,8 @@ def Update.apply : Update → Inv → Inv
   | .decrement path now last, t => decrementExecutingWorkersCount now last path t
   | .park path w, t => Fair.park w path t
   | .unpark path idx, t => Fair.unpark idx path t
+  | .create path k now, t => createInvocation k now path t
+  | .removeIfEmpty path k, t => removeInvocation k path t
 
 /-- What the callers guarantee (the Go code would dereference nil or index out of range
 otherwise): the invocation exists; a removed operation is in the heap at `queueIndex`; a dequeued
@@ -172,6 +195,8 @@ def Update.enabled : Update → Inv → Prop
   | .decrement _ _ _, _ => True
   | .park path _, t => (nodeAt t path).isSome = true
   | .unpark path idx, t => ∃ n, nodeAt t path = some n ∧ idx < n.parked.length
+  | .create _ _ _, _ => True
+  | .removeIfEmpty _ _, _ => True
 
 def applyAll : List Update → Inv → Inv
   | [], t => t
